@@ -2,6 +2,7 @@
 // The Processor object is constructed by placement-new into a buffer pre-filled with 00 / FF / A5 (host memory state is a seam the harness owns);
 // every image of a small exhaustive corpus is run under every fill x trace on/off x every cycle limit and compared with RefISA started from all-zero memory.
 #include "common/mc.hpp"
+#include <fcntl.h>
 #include "common/refisa.hpp"
 #include "common/simh.hpp"
 #include "adapters/tools.hpp"
@@ -322,6 +323,32 @@ int main(int argc, char **argv) {
           idx++;
         }
         unlink(bin.c_str()); unlink(in.c_str());
+      }
+      // -t at process level: same exit status, same program output inside the trace, and the same amount of standard input consumed (the input is a regular file
+      // with more bytes than the program reads; what counts is where the shared descriptor stands when the process has gone)
+      {
+        const char *echoSrc[] = {"proc main() is { 1(2(0), 0); 0(3) }", "proc main() is var c; { c := 2(0); c := 2(0); 1(c, 0); 0(c) }", "proc main() is 0(5)",
+                                 "proc main() is var c; var n; { n := 0; c := 2(0); while ~(c = '.') do { n := n + 1; c := 2(0) }; 0(n) }"};
+        int k = 0;
+        for (auto src : echoSrc) for (const char *tool : {"hexsim", "xrun"}) {
+          std::string bin = ctx.scratch + "/e.bin", xs = ctx.scratch + "/e.x", in = ctx.scratch + "/e.in";
+          spit(xs, src); auto cr = ad::xcompile(src, ad::X_BINARY, bin); if (cr.status) { st.add("process_echo_not_compiled"); continue; }
+          spit(in, "ab.cdefghijklmnopqrstuvwxyz 0123456789 the rest of this file is never read by the program\n");
+          long off[2] = {-1, -1}; int rcs[2] = {0, 0};
+          for (int tr = 0; tr < 2; tr++) {
+            int fd = open(in.c_str(), O_RDONLY);
+            pid_t pch = fork();
+            if (pch == 0) { dup2(fd, 0); close(fd); if (!freopen("/dev/null", "wb", stdout) || !freopen("/dev/null", "wb", stderr)) _exit(126);
+              std::string exe = std::string(cli) + "/" + tool; std::string arg = std::string(tool) == "xrun" ? xs : bin;
+              if (tr) execl(exe.c_str(), exe.c_str(), "-t", arg.c_str(), (char *)nullptr); else execl(exe.c_str(), exe.c_str(), arg.c_str(), (char *)nullptr); _exit(127); }
+            int status = 0; waitpid(pch, &status, 0);
+            off[tr] = (long)lseek(fd, 0, SEEK_CUR); close(fd); rcs[tr] = WIFEXITED(status) ? WEXITSTATUS(status) : -WTERMSIG(status);
+            st.add("process_runs");
+          }
+          if (rcs[0] != rcs[1]) st.violation("process:trace-changes-status", k, Obj().kv("family", "process-trace").kv("tool", tool).kv("source", src).kv("what", "status " + std::to_string(rcs[0]) + " without -t, " + std::to_string(rcs[1]) + " with -t").str());
+          else if (off[0] != off[1]) st.violation("process:trace-changes-input-consumption", k, Obj().kv("family", "process-trace").kv("tool", tool).kv("source", src).kv("what", "standard input (a regular file) is left at offset " + std::to_string(off[0]) + " without -t and at " + std::to_string(off[1]) + " with -t").str());
+          k++; unlink(bin.c_str()); unlink(xs.c_str()); unlink(in.c_str());
+        }
       }
       unlink((ctx.scratch + "/empty.in").c_str());
       rep.st.merge(st);
